@@ -3,6 +3,7 @@ From Coq Require Import List Bool NArith.
 Import ListNotations.
 From JS Require Import Model.Base Model.Shape Model.Sem Model.Merger Model.Infer Model.Api
   Proofs.MergerConverge Proofs.SourcesSound.
+From JS Require Import Model.Lexer Model.Walk Model.TextApi Model.JsonRef Proofs.TextComplete Proofs.TextLift.
 
 (* merging the same source shape a second time changes nothing, whatever has been accumulated:
    for every well-formed a and every OneOf-free s (all inferred shapes are) without an Array<Null> node *)
@@ -39,6 +40,14 @@ Theorem C09_add_twice_needs_hypothesis : exists a s, wf a = true /\ wf s = true 
   merger (merger (merger a s) s) s = merger (merger a s) s.
 Proof. exact add_twice_needs_hypothesis. Qed.
 Print Assumptions C09_add_twice_needs_hypothesis.
+
+(* on TEXTS *)
+Theorem C09_text_converge : forall srcs ds s d sd sh, Forall2 text_of srcs ds -> text_of s d ->
+  infer_text d = Ok sd -> no_null_array sd = true ->
+  from_sources_m cfg_now (srcs ++ [s]) = Ok sh ->
+  forall k, from_sources_m cfg_now ((srcs ++ [s]) ++ repeat s k) = Ok sh.
+Proof. exact text_sources_converge. Qed.
+Print Assumptions C09_text_converge.
 
 Example C09_nonvacuous :
   let h := [JArr [JNum]; JArr [JNum; JStr]] in
